@@ -318,20 +318,6 @@ theorem regex_literals_pinned :
     KskmGen.regexLiterals.lookup "src/kskm/common/xml_parser.py:re.match#3" = some "^(\\w+)=\"(.+?)\"\\s*(.*)" := by
   decide
 
-/-- two range tables have no code point in common -/
-def rangesDisjoint (a b : List (Nat × Nat)) : Bool :=
-  a.all fun x => b.all fun y => decide (x.2 < y.1) || decide (y.2 < x.1)
-
-theorem inRanges_disjoint (a b : List (Nat × Nat)) (h : rangesDisjoint a b = true) (c : Char) :
-    ¬ (inRanges a c = true ∧ inRanges b c = true) := by
-  rintro ⟨ha, hb⟩
-  simp only [inRanges, List.any_eq_true, Bool.and_eq_true, decide_eq_true_eq] at ha hb
-  obtain ⟨x, hx, hx1, hx2⟩ := ha
-  obtain ⟨y, hy, hy1, hy2⟩ := hb
-  simp only [rangesDisjoint, List.all_eq_true, Bool.or_eq_true, decide_eq_true_eq] at h
-  have := h x hx y hy
-  omega
-
 /-- **Sanity of the running Python's classes**, on which the deterministic reading of the lazy / greedy
     quantifiers rests: no character is both `\w` and `\s`; none of `< > = " /` is a word character;
     `\s` and `str.strip()` agree on the characters that matter here. -/
@@ -361,7 +347,7 @@ example : parseAttrs pyClasses ⟨true, true⟩ 20 "id=\"foo\" domain=\".\"".toL
 example : parseAttrs pyClasses ⟨true, true⟩ 9 "id='foo'".toList [] = .err .value := by decide +kernel
 
 /-- a file oracle over the cap -/
-example : (loadKsr pyClasses ⟨true, true⟩ ⟨true, true⟩ (fun _ _ _ _ => .unknown) 0
+example : (loadKsr pyClasses ⟨true, true⟩ ⟨true, true, true, true⟩ (fun _ _ _ _ => .unknown) 0
     { statSize := 2 ^ 20 + 1, read := fun _ => [], decode := fun _ => none } KskmGen.requestPolicyDefaults).readCalled
     = false := by
   rw [size_gate _ _ _ _ _ _ _ _ (by decide)]
